@@ -41,6 +41,19 @@ OUTSIDE = {
     "C14-18": "get_opcode() remembers matches per id(table): every shipped table and every value exposed under a name is unchanged; a *caller-built* table that lands on the address of a dead one gets the dead table's entries - 'the operation code the attached device's command set assigns' is C13's statement, and C13 catches it (a quirk table used, dropped and collected, then a standard one)",
     "C14-19": "OpCode builds its service-action enumeration lazily from the caller's dictionary object: the shipped tables are unaffected; 'an enumeration built from a mapping exposes exactly the supplied names' (the caller reuses his dictionary) is C18's statement, and C18 catches it",
     "C14-20": "SCSI.modeselect6() answers ILLEGAL REQUEST/20h/00h by sending operation code 5Ah: every table value is T10's; a failed command that is followed by another command instead of reaching the caller is C07's statement, and C07 catches it (well-known conditions on every facade method)",
+    "C02-21": "the codec tells the two layout notations apart by container type, so a legacy field written as a (mask, offset) tuple in a user's _cdb_bits is dropped: every shipped layout round-trips; 'masks written as tuples' is the codec's own law (C10), and C10 catches it",
+    "C02-23": "the WriteSame16 *constructor* sets NDOB when no block is given: C02's oracle 'decode returns what build_cdb was given' still holds; arguments -> CDB is C01's statement, and C01 catches it (WRITE SAME prepared without its block)",
+    "C03-22": "scsi_int_to_ba() hands out a shared, cached bytearray: every buffer the library itself builds still matches its CDB; 'the result does not depend on what a caller did with an earlier result' is monitored at the codec (C10), and C10 catches it",
+    "C03-23": "the facade remembers a block size from READ CAPACITY(16) (the physical one) when none was configured: a facade *with* a block size is unaffected; a block transfer without block size must be refused whatever was asked before - C17's statement, and C17 catches it",
+    "C06-21": "the MODE SENSE(10) *parser* steps over twice the block descriptor area when LONGLBA=1: nothing the library can build carries block descriptors, so no build/parse pair C06 speaks of is affected; decoding a well-formed response is C04's statement, and C04 catches it",
+    "C09-22": "the facade keeps the command in flight in an attribute of itself: commands built by their classes stay isolated (what C09 speaks of); a device wrapper that issues a command of its own through the same facade makes the outer call return the other command - 'the command it sent is the one it returns' is C13's statement, and C13 catches it",
+    "C12-22": "replug detection compares device numbers for special files: histories on the nodes C12 drives (and every replug that changes the number) round-trip; a replaced character node with the same number is C15's statement (and observed at C13's binding boundary), and both catch it",
+    "C12-23": "the block methods bypass an execute() that an application subclass of the facade overrides: with the plain facade every history round-trips; 'every method hands its command over through the one documented path, once' is observed by C13 (facade subclass), and C13 catches it",
+    "C13-22": "the shipped tables share one service-action enumeration per dictionary: every facade call sends the right command until somebody edits such an enumeration; 'one enumeration never affects another' is C18's statement (and the shared entries are seen by C14's walk), and both catch it",
+    "C14-21": "assigning cmd.opcode XORs the operation code into the built CDB: tables, lengths and every construction path are unchanged; 'the CDB keeps decoding to the values it was built from' is C02's statement, and C02 catches it (opcode re-assigned, CDB compared after each assignment)",
+    "C14-22": "the SG_IO transport pads short CDBs to 12 bytes for CD/DVD devices: every table value and every CDB length the library *derives* is unchanged; the CDB that reaches the binding is C13's observation point, and C13 catches it (the device type an attach stored)",
+    "C15-22": "init_device() runs the path through abspath(), which cancels 'link/..' textually: handles of a device that was opened on the requested path behave as before; 'opened on exactly the requested path' is C19's statement (and C16 routes units by the inode behind the handle), and both catch it",
+    "C16-21": "an attach to a unit reporting MCHNGR adds entries to the shared module-level command set: the table object selected for each device type is still the right one; 'every name a set exposes is T10's and stays so while the library is used' is C14's statement, and C14 catches it (tables walked again after a usage phase with all INQUIRY flag patterns)",
     "C09-11": "copy.deepcopy(command) shares the decoded result: no other command is created or used, the CDBs and buffers C09 speaks of stay independent; the returned command and its result are C13's observation point, and C13 catches it",
 }
 
